@@ -80,7 +80,7 @@ func implParse(b *vmBox, tt string) string {
 func nodeOfTokSorted(b *vmBox, text otto.Value, sb *strings.Builder) {}
 
 // implRevive runs JSON.parse(text, reviver) with a logging reviver.  One run when no parsed object
-// has two or more properties; otherwise 200 runs: "nondet" if the outcomes differ beyond key order
+// has two or more properties; otherwise 60 runs: "nondet" if the outcomes differ beyond key order
 // (keys sorted, log sorted), "unord:<canonical>" if they differ in order only.
 func implRevive(b *vmBox, tt string, id int) string {
 	text := strVal(unitsOf(strings.TrimPrefix(tt, "t:")))
@@ -93,7 +93,7 @@ func implRevive(b *vmBox, tt string, id int) string {
 	lastRaw, lastCanon := "", ""
 	runs := 1
 	if multi {
-		runs = 200
+		runs = 60
 	}
 	for run := 0; run < runs; run++ {
 		logObj, err := b.vm.Object(`[]`)
